@@ -96,6 +96,9 @@ func (g *Gen) validDoc() (map[string]any, *big.Int) {
 		comms := make([]*big.Int, g.Sys.Batch)
 		for i := range comms {
 			comms[i] = rollup.RandomCommitment(t)
+			if t.Chance(1, 12) {
+				comms[i] = big.NewInt(0) // any field element is a legal commitment, the empty value included
+			}
 		}
 		start, ok := w.FreeStart(t, g.Sys.Batch)
 		if !ok {
@@ -203,6 +206,28 @@ func (g *Gen) InvalidVariantOf(prev *Request) *Request {
 	var doc map[string]any
 	json.Unmarshal(b, &doc)
 	kind := ""
+	switch g.T.Draw(4) {
+	case 0:
+		// identical except for the stated input hash (same indices, roots, leaves)
+		h, _ := new(big.Int).SetString(strings.TrimPrefix(doc["inputHash"].(string), "0x"), 16)
+		doc["inputHash"] = hx(h.Add(h, big.NewInt(1)))
+		return g.post(render(doc), "invalid-batch/variant-same-everything-other-input-hash", Expect{Status: 400, Code: "proving_error"}, nil)
+	case 1:
+		// same indices and roots, another sibling in one merkle proof of a real slot
+		mp := doc["merkleProofs"].([]any)
+		for i, rowAny := range mp {
+			row := rowAny.([]any)
+			real := true
+			if g.Sys.Mode == rollup.Deletion {
+				ix := doc["deletionIndices"].([]any)[i].(float64)
+				real = uint64(ix) < uint64(1)<<uint(g.Sys.Depth)
+			}
+			if real && len(row) > 0 {
+				row[g.T.Pick(len(row))] = hx(g.T.BigBelow(oracle.R))
+				return g.post(render(doc), "invalid-batch/variant-same-hash-indices-roots-other-sibling", Expect{Status: 400, Code: "proving_error"}, nil)
+			}
+		}
+	}
 	if g.T.Chance(1, 2) {
 		doc["postRoot"] = hx(g.T.BigBelow(oracle.R)) // same hash and pre-root, other post-root
 		kind = "same-hash-and-pre-root-other-post-root"
@@ -256,7 +281,13 @@ func (g *Gen) WrongShape() *Request {
 	kind := ""
 	ic := doc["identityCommitments"].([]any)
 	mp := doc["merkleProofs"].([]any)
-	switch t.Draw(6) {
+	switch t.Draw(8) {
+	case 6:
+		mp[t.Pick(len(mp))] = nil // a JSON null where a row is expected
+		kind = "null-merkle-proof-row"
+	case 7:
+		doc["identityCommitments"] = nil
+		kind = "null-commitments"
 	case 0:
 		doc["identityCommitments"] = ic[:len(ic)-1]
 		kind = "commitments-short"
